@@ -2,12 +2,17 @@
    Statements only; proofs are in Proof/TaskHead.v (what build_response_header
    emits), Proof/TaskStart.v (what start_response refuses / accepts),
    Proof/TaskRun.v (invariants of a whole run), Proof/TaskC08.v (the service
-   ladder), Proof/TaskSort.v, Proof/TaskLines.v, Proof/TaskOracle.v.
-   Status, names and values are arbitrary code-point lists of any length. *)
+   ladder), Proof/TaskSort.v, Proof/TaskLines.v, Proof/TaskOracle.v,
+   Proof/TaskProv.v (swallowed refusals: residue of a refused call, provenance
+   of every string of the head).
+   Status, names and values are arbitrary code-point lists of any length.
+   Scripts include ATryStart: start_response called inside try/except by an
+   application (or wrapper) that swallows the refusal and carries on; every
+   theorem quantified over [a : app] covers such scripts. *)
 From Coq Require Import String.
 From Coq Require Import List NArith ZArith Bool Permutation.
 From WV Require Import Lib.PyBytes Gen.GenTables Model.Task Proof.TaskSort Proof.TaskLines Proof.TaskHead
-  Proof.TaskStart Proof.TaskRun Proof.TaskOracle Proof.TaskC08.
+  Proof.TaskStart Proof.TaskRun Proof.TaskOracle Proof.TaskC08 Proof.TaskProv.
 Import ListNotations.
 Local Open Scope N_scope.
 
@@ -122,6 +127,119 @@ Theorem C08_pair_alias_instance :
     /\ In (lit "X-A: ok") (split h CRLF) /\ ~ In (lit "Set-Cookie: evil=1") (split h CRLF).
 Proof. exact pair_alias_harmless. Qed.
 Print Assumptions C08_pair_alias_instance.
+
+(* ---- applications that catch a refusal of start_response and carry on ---- *)
+
+(* The swallowed call itself: no exception, nothing written; the task is the one
+   start_response left behind at its raise site. *)
+Theorem C08_swallow_silent : forall c r disc s status headers exc,
+  exists t, run_action py_cap py_lower c r disc s (ATryStart status headers exc) = ((t, snd s), Ok tt)
+            /\ t = fst (start_response py_lower (fst s) status headers exc).
+Proof. exact (try_start_silent py_cap py_lower). Qed.
+Print Assumptions C08_swallow_silent.
+
+(* Every raise site of start_response: the task is untouched (refused at the
+   door), or complete = True, the fields are the old ones ([] after exc_info) --
+   never extended --, the status is the old one or the call's own status once it
+   passed the str and CR/LF checks, content_length is the old one or int() of a
+   Content-Length pair of this list (also when a LATER pair is refused). *)
+Theorem C08_refusal_residue : forall t status headers exc t' e,
+  start_response py_lower t status headers exc = (t', Exn e) ->
+  t' = t
+  \/ (t_complete t' = true
+      /\ t_rh t' = match exc with Some _ => [] | None => t_rh t end
+      /\ (exc <> None -> t_wrote_header t = false)
+      /\ ((bad_obj status = true /\ t_status t' = t_status t /\ t_clen t' = t_clen t)
+          \/ (exists s, status = PStr s /\ has_crlf s = false /\ t_status t' = s
+                        /\ clen_from py_lower headers (t_clen t) (t_clen t')))).
+Proof. exact (start_response_residue py_lower). Qed.
+Print Assumptions C08_refusal_residue.
+
+(* Provenance is kept by start_response whether it returns or raises, for ANY
+   notion P of admissible status and Q of admissible field to which the call
+   contributes its status only if that passes its own checks and its pairs only
+   if the call is acceptable as a whole. *)
+Theorem C08_start_provenance : forall (P : str -> Prop) (Q : str * str -> Prop) t status headers exc,
+  task_from P Q t -> call_ok py_lower P Q status headers ->
+  task_from P Q (fst (start_response py_lower t status headers exc)).
+Proof. exact (start_response_prov py_lower). Qed.
+Print Assumptions C08_start_provenance.
+
+(* Whole runs, every script (propagating and swallowed refusals, any faults, any
+   disconnect): the head on the wire is the serialisation of a task whose status
+   is the default or the status argument of one of the script's start_response
+   calls that passed the status checks, and each of whose fields was passed in
+   a call of the script that start_response accepts as a whole, or is a server
+   field.  A string start_response refuses never reaches the wire. *)
+Theorem C08_wire_accepted : forall c r disc a,
+  r_error r = None ->
+  let res := run_task c r a disc in
+  o_wrote_header1 res = true ->
+  exists h rest t0 t1,
+    o_writes1 res = WBytes h :: rest
+    /\ status_vetted a (t_status t0) /\ Forall (field_ok py_lower c a) (t_rh t0)
+    /\ build_response_header py_cap py_lower c r t0 = (t1, Ok h).
+Proof. exact (fun c r disc a => wire_accepted py_cap py_lower c r disc a). Qed.
+Print Assumptions C08_wire_accepted.
+
+(* ... line by line *)
+Theorem C08_wire_accepted_lines : forall c r disc a,
+  cfg_clean c -> r_error r = None ->
+  let res := run_task c r a disc in
+  o_wrote_header1 res = true ->
+  exists h rest t0 sf,
+    o_writes1 res = WBytes h :: rest
+    /\ status_vetted a (t_status t0) /\ Forall (field_ok py_lower c a) (t_rh t0)
+    /\ Forall (server_field c) sf
+    /\ let fields := norm_fields py_cap (has_body t0) (t_rh t0) ++ sf in
+       split h CRLF =
+         (lit "HTTP/" ++ version_str t0 ++ [32] ++ t_status t0)
+           :: map header_line (sort_hdrs fields) ++ [[]; []]
+       /\ Forall clean (firstn (S (length fields)) (split h CRLF)).
+Proof. exact (fun c r disc a Hc => wire_accepted_lines py_cap py_lower c r disc py_cap_clean Hc a). Qed.
+Print Assumptions C08_wire_accepted_lines.
+
+(* what "vetted" excludes *)
+Theorem C08_vetted_clean : forall c a,
+  cfg_clean c ->
+  (forall s, status_vetted a s -> clean s) /\ (forall f, field_ok py_lower c a f -> clean_field f).
+Proof. exact (vetted_clean py_lower). Qed.
+Print Assumptions C08_vetted_clean.
+
+(* The three sequences of seeded change C08-w2m2 (refused first call swallowed;
+   valid call then refused exc_info re-call; refused re-call then write()):
+   nothing of the refused status is in the head. *)
+Theorem C08_swallowed_instances :
+  head_lines_of swallow_first_app =
+    Some [lit "HTTP/1.1 200 OK"; lit "Content-Length: 5";
+          lit "Date: Thu, 01 Jan 2026 00:00:00 GMT"; lit "Server: waitress"; []; []]
+  /\ head_lines_of swallow_excinfo_app =
+    Some [lit "HTTP/1.1 200 OK"; lit "Content-Length: 5";
+          lit "Date: Thu, 01 Jan 2026 00:00:00 GMT"; lit "Server: waitress"; []; []]
+  /\ head_lines_of swallow_write_app =
+    Some [lit "HTTP/1.1 200 OK"; lit "Connection: close";
+          lit "Date: Thu, 01 Jan 2026 00:00:00 GMT"; lit "Server: waitress";
+          lit "Transfer-Encoding: chunked"; []; []].
+Proof. exact swallowed_refusals_instances. Qed.
+Print Assumptions C08_swallowed_instances.
+
+(* Observation (not a breach of C08: every emitted string passed its own
+   validation): a refused call is not atomic.  The stricter statement "the
+   status on the wire belongs to a call accepted as a whole, or is the default"
+   is refuted by  try: start_response("404 Not Found", [("Content-Length","3"),
+   ("X-Bad\n","v")]) except ValueError: pass; return [b"hello"]  -- the wire says
+   404 Not Found, Content-Length: 3, "hel". *)
+Theorem C08_strict_status_refuted : ~ strict_status_statement.
+Proof. exact strict_status_refuted. Qed.
+Print Assumptions C08_strict_status_refuted.
+
+Theorem C08_residue_instance :
+  o_writes (run_task sample_cfg sample_req residue_app None) =
+    [WBytes (lit "HTTP/1.1 404 Not Found" ++ CRLF ++ lit "Content-Length: 3" ++ CRLF
+             ++ lit "Date: Thu, 01 Jan 2026 00:00:00 GMT" ++ CRLF ++ lit "Server: waitress" ++ CRLF ++ CRLF);
+     WBytes (lit "hel")].
+Proof. exact residue_instance. Qed.
+Print Assumptions C08_residue_instance.
 
 (* the hypotheses are satisfiable *)
 Example C08_example_cfg : cfg_clean sample_cfg.
